@@ -289,17 +289,17 @@ theorem resolveCall_world {cfg : Cfg} {w : World} {inst : Nat} {cur : Cursor} {c
 
 /-- The dispatch of `handleStreamExchange`: a request is either refused with a 400 before anything
 runs (world untouched, no handler call), or its first `MetaStreamState` value opens to a minted
-cursor and exactly one of cancel / producer continuation / exchange turn runs on it. -/
+cursor of the method the URL names and exactly one of cancel / producer continuation / exchange
+turn runs on it. -/
 theorem handleExchange_cases (cfg : Cfg) (w : World) (req : Req) :
     (∃ e, handleExchange cfg w req = (errResp 400 false e, w, [])) ∨
     (∃ tv cur w1, getFirst keyState req.md = some tv ∧ openCursor w tv = some cur ∧
+       cur.st.producer = req.routeProducer ∧
        w1.minted = w.minted ∧ w1.calls = w.calls ∧
        (((getFirst keyCancel req.md).isSome = true ∧ handleExchange cfg w req = cancelTurn w1 cur) ∨
-        ((getFirst keyCancel req.md).isSome = false ∧ req.routeProducer ≠ cur.st.producer ∧
-          handleExchange cfg w req = (crossKind, w1, [])) ∨
-        ((getFirst keyCancel req.md).isSome = false ∧ req.routeProducer = true ∧ cur.st.producer = true ∧
+        ((getFirst keyCancel req.md).isSome = false ∧ req.routeProducer = true ∧
           handleExchange cfg w req = producerContinuation cfg w1 cur req) ∨
-        ((getFirst keyCancel req.md).isSome = false ∧ req.routeProducer = false ∧ cur.st.producer = false ∧
+        ((getFirst keyCancel req.md).isSome = false ∧ req.routeProducer = false ∧
           req.schemaOk = true ∧ handleExchange cfg w req = exchangeCall cfg w1 cur req))) := by
   unfold handleExchange
   simp only []
@@ -314,13 +314,17 @@ theorem handleExchange_cases (cfg : Cfg) (w : World) (req : Req) :
       | none => exact Or.inl ⟨_, rfl⟩
       | some cur =>
         simp only []
-        cases hr : resolveCall cfg w req.inst cur (getFirst keyCall req.md) with
-        | error e => exact Or.inl ⟨_, rfl⟩
-        | ok w1 =>
-          simp only []
-          obtain ⟨hm, hcl⟩ := resolveCall_world hr
-          refine Or.inr ⟨tv, cur, w1, rfl, ho, hm, hcl, ?_⟩
-          cases hc : (getFirst keyCancel req.md).isSome <;> cases hrp : req.routeProducer <;>
-            cases hp : cur.st.producer <;> cases hs : req.schemaOk <;> simp_all
+        split
+        · exact Or.inl ⟨_, rfl⟩
+        · rename_i hkind
+          cases hr : resolveCall cfg w req.inst cur (getFirst keyCall req.md) with
+          | error e => exact Or.inl ⟨_, rfl⟩
+          | ok w1 =>
+            simp only []
+            obtain ⟨hm, hcl⟩ := resolveCall_world hr
+            refine Or.inr ⟨tv, cur, w1, rfl, ho, ?_, hm, hcl, ?_⟩
+            · cases hrp : req.routeProducer <;> cases hp : cur.st.producer <;> simp_all
+            · cases hc : (getFirst keyCancel req.md).isSome <;> cases hrp : req.routeProducer <;>
+                cases hs : req.schemaOk <;> simp_all
 
 end Vgi.HttpStream
